@@ -6,11 +6,11 @@ moved into a helper: an extracted helper is neither an alarm by itself nor a hid
 
 Not inlined (the function stays a separate unit and is judged as such): functions named in
 `known_fns.KNOWN_FNS` (everything that existed when the tables were reviewed), public entries,
-closures and functions containing closures, recursive functions, calls that instantiate the
-callee's generics with anything but the caller's identically named parameters, calls in cleanup
-blocks.
+closures and functions containing closures, recursive functions, calls in cleanup blocks. A helper with
+generic parameters of its own is inlined after substituting the call's instantiation for them.
 """
 import copy
+import re as _re
 
 from . import mir
 
@@ -69,7 +69,10 @@ def _can_inline(prog, caller, b, known):
     gens = [g.split(":")[0] for g in h.rec.get("generics", []) if not g.endswith(":Lifetime")]
     args = fn.get("rargs") if fn.get("rargs") is not None else fn.get("args", [])
     if list(args) != gens:
-        return None
+        # instantiated with other types (`fn helper<U>(..)` called with U = MaybeUninit<T>): inlined after substituting the
+        # instantiation for the parameter names in the helper's type strings
+        if len(args) != len(gens) or not all(isinstance(a, str) and a for a in args):
+            return None
     # direct recursion
     for _, ht in h.calls(True):
         if mir.callee_short(ht) == short:
@@ -82,6 +85,23 @@ def _can_inline(prog, caller, b, known):
 def _inline_one(caller_rec, b, h):
     m = caller_rec["mir"]
     hm = copy.deepcopy(h.rec["mir"])
+    fn_ = mir.callee_of(caller_rec["mir"]["blocks"][b]["term"]) or {}
+    gens_ = [g.split(":")[0] for g in h.rec.get("generics", []) if not g.endswith(":Lifetime")]
+    args_ = fn_.get("rargs") if fn_.get("rargs") is not None else fn_.get("args", [])
+    ren = {g: a for g, a in zip(gens_, args_) if g != a} if len(gens_) == len(args_) else {}
+    if ren:
+        pat = _re.compile(r"(?<![A-Za-z0-9_])(%s)(?![A-Za-z0-9_])" % "|".join(_re.escape(g) for g in ren))
+
+        def sub(x):
+            if isinstance(x, str):
+                return pat.sub(lambda m_: ren[m_.group(1)], x)
+            if isinstance(x, list):
+                return [sub(y) for y in x]
+            if isinstance(x, dict):
+                return {k: sub(v) for k, v in x.items()}
+            return x
+
+        hm = sub(hm)
     loff, boff = len(m["locals"]), len(m["blocks"])
     blk = m["blocks"][b]
     t = blk["term"]
